@@ -240,7 +240,9 @@ PROPS = {
         "theorems": ["C18_silent_after_stop", "C18_stopped_is_sticky", "C18_output_plus_pending_is_text", "C18_stop_token_cut",
                      "C18_partials_step", "C18_reported_match_is_a_match", "C18_no_match_missed", "C18_utf8_cut_bounds",
                      "C18_run_stops_at_first_match", "C18_run_without_match", "C18_returned_piece_is_utf8_cut",
-                     "C18_failed_matcher_is_sticky", "C18_every_error_fails_the_matcher", "C18_out_of_range_token_refused"],
+                     "C18_failed_matcher_is_sticky", "C18_every_error_fails_the_matcher", "C18_out_of_range_token_refused",
+                     "C18_stopped_refuses_commit", "C18_stopped_refuses_mask", "C18_stopped_mask_is_eos_only",
+                     "C18_stop_only_when_accepting", "C18_validate_keeps_protocol_state", "C18_rollback_too_far_refused"],
         "rule": "(a) stop controller: vocabularies with tokens splitting UTF-8 characters, special and empty tokens; 0-2 stop strings "
                 "(overlapping), optional stop regex, stop tokens; random segmentations of text containing stop candidates, one third "
                 "of the streams not valid UTF-8; compared with the model: total text (valid streams), stopped flag after every token; "
@@ -256,7 +258,9 @@ PROPS = {
                       "missed; over a whole run the returned text is exactly the decoded text before the first match to complete (the shortest "
                       "match ending there removed) and the controller is then stopped, and without a match returned plus held-back text is "
                       "the whole text; the UTF-8 cut stays inside the data. Theorems (matcher model): every error switches the matcher to a permanent "
-                      "failed state in which every call fails and nothing changes; out-of-range token ids are refused. The implementation is "
+                      "failed state in which every call fails and nothing changes; out-of-range token ids are refused; after a stop a commit or a mask "
+                      "request is an error and compute_mask_or_eos yields exactly the end-of-sequence tokens; a successful commit leaves the "
+                      "matcher stopped only if check_stop saw an accepting state; validation does not change the protocol state. The implementation is "
                       "compared with the model on random streams and call sequences.",
         "level_note": "Partial: the stop controller is proved over whole runs (text before the first match to complete, nothing after, "
                       "nothing lost without a match) for ordinary tokens and one stop expression; the Constraint-level protocol and "
